@@ -82,7 +82,12 @@ Inapplicable(c) == \/ \E r \in SetOf(c.regs) : Fails(HS(c.post), r.e) \/ Fails(H
 ReadClauses(c) ==
   LET p == c.m.e
       changed == \E k \in 1..Len(c.since) : Relevant(HS(c.since[k].pre), p, c.since[k].m) /\ MayNotify(HS(c.since[k].pre), c.since[k].m)
-  IN (IF c.ret = PropValue(c.post, p) THEN {} ELSE {"C12-stale-read"})
+      \* Named deviation (known finding C12/F32): root.child was given an object LACKING the observed trait.  The
+      \* assignment takes effect and raises from inside the framework: the maintainer of the FIRST registration on the
+      \* path (the uncached property chv) raises, and the C layer stops calling the remaining notifiers of the trait -
+      \* among them the one that would have dropped the cache of the second property (cfirst)
+      kf32 == p = "cfirst" /\ c.post.child[Root] = NoVal
+  IN (IF c.ret = PropValue(c.post, p) THEN {} ELSE IF kf32 THEN {"KF32"} ELSE {"C12-stale-read"})
      \cup (IF c.runs > 1 THEN {"C12-getter-ran-more-than-once"} ELSE {})
      \cup (IF p \in CachedProps /\ c.first = 0 /\ ~changed /\ c.runs # 0 THEN {"C12-cached-getter-ran-without-relevant-change"} ELSE {})
 Clauses(c) ==
